@@ -72,7 +72,10 @@ class VerifyMixin(object):
         old.old = old
         st.old = old
         self.covers.append(("%s/cover:pre" % self.unit, [list(CTX.axioms) + list(st.pc)]))
-        outs = self.exec_block(fn.body, st)
+        mark = CTX.counter_mark()
+        outs = self.exec_block(fn.body, st.copy() if c.self_compose else st)
+        if c.self_compose:
+            self.self_composition(c, fn, st, outs, mark)
         # nested raise outcomes are already Outcome('raise')
         n_paths = 0
         for o in outs:
@@ -87,6 +90,34 @@ class VerifyMixin(object):
                     decorators=[ast.unparse(d) for d in fn.decorator_list], paths=n_paths)
         self.contract = None
         return info
+
+    def self_composition(self, c, fn, st0, outs1, mark):
+        """Determinism under arbitrary iteration orders: the body is executed a second time from the same initial state
+        with the same fresh-symbol sequence, except that every symbol standing for the enumeration order of a set / dict is
+        a different one.  For every pair of normal outcomes the observable must be equal."""
+        n_obl, n_cov = len(self.obls), len(self.covers)
+        CTX.counter_reset(mark)
+        CTX.run_tag = "@2"
+        try:
+            outs2 = self.exec_block(fn.body, st0.copy())
+        finally:
+            CTX.run_tag = ""
+        del self.obls[n_obl:]          # the second run's own obligations are duplicates
+        del self.covers[n_cov:]
+        n = 0
+        for o1 in outs1:
+            for o2 in outs2:
+                if o1.kind not in ("normal", "return") or o2.kind not in ("normal", "return"):
+                    continue
+                for text in c.self_compose:
+                    s1, s2 = self._post_state(c, o1, st0.old), self._post_state(c, o2, st0.old)
+                    v1, v2 = self.spec(text, s1), self.spec(text, s2)
+                    both = s1.copy()
+                    both.pc = list(s1.pc) + [p for p in s2.pc if not any(p is q for q in s1.pc)]
+                    g = core.equals(v1, v2) if not isinstance(v1.ty, List) else core.seq_eq(v1, v2)
+                    self.oblige(both, "deterministic", text, "%s is the same whatever order sets / dicts are iterated in" % text, g, None)
+                    n += 1
+        return n
 
     def _post_state(self, c, o, old):
         st = o.st.copy()
